@@ -298,7 +298,7 @@ pub fn rdata_shapes() -> Vec<(&'static str, String, Vec<Field>, RData)> {
             &apex,
             vec![
                 ("mandatory=alpn", SvcParamKey::Mandatory, SvcParamValue::Mandatory(Mandatory(vec![SvcParamKey::Alpn]))),
-                ("alpn=\"h2\"", SvcParamKey::Alpn, SvcParamValue::Alpn(Alpn(vec!["h2".into()]))),
+                ("alpn=h2", SvcParamKey::Alpn, SvcParamValue::Alpn(Alpn(vec!["h2".into()]))),
                 ("no-default-alpn", SvcParamKey::NoDefaultAlpn, SvcParamValue::NoDefaultAlpn),
                 ("ech=AQIDBA==", SvcParamKey::EchConfigList, SvcParamValue::EchConfigList(EchConfigList(vec![1, 2, 3, 4]))),
                 ("key65400=hello", SvcParamKey::Key(65400), SvcParamValue::Unknown(Unknown(b"hello".to_vec()))),
